@@ -20,9 +20,11 @@ import (
 	"io"
 	"net"
 	"os"
+	"runtime"
 	"runtime/debug"
 	"strconv"
 	"sync"
+	"sync/atomic"
 	"time"
 
 	"github.com/gofiber/fiber/v3"
@@ -54,6 +56,9 @@ type Req struct {
 	Labels  map[string]int `json:"labels" msgpack:"labels"`
 	Note    string         `json:"note,omitempty" msgpack:"note,omitempty"`
 	Tags    []int          `json:"tags,omitempty" msgpack:"tags,omitempty"`
+	// Extra is nil in every scripted payload; the "poison" op puts a channel here: a value both
+	// codecs reject, after the fields above have already been encoded.
+	Extra any `json:"extra,omitempty" msgpack:"extra,omitempty"`
 }
 
 type Res struct {
@@ -62,6 +67,9 @@ type Res struct {
 	Labels  map[string]int `json:"labels" msgpack:"labels"`
 	Note    string         `json:"note,omitempty" msgpack:"note,omitempty"`
 	Tags    []int          `json:"tags,omitempty" msgpack:"tags,omitempty"`
+	// Extra is nil in every scripted payload; the "poison" op puts a channel here: a value both
+	// codecs reject, after the fields above have already been encoded.
+	Extra any `json:"extra,omitempty" msgpack:"extra,omitempty"`
 }
 
 const nVariants = 5
@@ -337,6 +345,8 @@ type result struct {
 	Open  string  `json:"open,omitempty"`
 	Panic *string `json:"panic"`
 	Note  string  `json:"note,omitempty"`
+	// Poison lists what went wrong with deliberately unencodable sends ("" entries omitted)
+	Poison []string `json:"poison,omitempty"`
 }
 
 // ---------------------------------------------------------------- one running case
@@ -363,7 +373,75 @@ type run struct {
 var (
 	curMu sync.Mutex
 	cur   *run
+	// set while a "poison" op opens its auxiliary stream (cases run one at a time)
+	auxOpening atomic.Bool
+	auxEntered = make(chan bool, 4)
 )
+
+// poison: on another stream of the same transport, in the same process, both ends try to send
+// a payload the codec rejects after having encoded part of it; the codec is also driven directly
+// from many goroutines with such a value (as so many other failing Sends would). Returns what
+// went wrong with the failing sends themselves ("" = each was refused with an error).
+func poison(ctx context.Context, tname string) string {
+	var codec xhttp.Codec
+	switch tname {
+	case "ws":
+		codec = xjson.Codec
+	case "wsm":
+		codec = msgpack.Codec
+	default:
+		return ""
+	}
+	t, err := getTransport(tname)
+	if err != nil {
+		return "aux transport: " + err.Error()
+	}
+	actx, cancel := context.WithTimeout(ctx, 2*time.Second)
+	defer cancel()
+	auxOpening.Store(true)
+	cs, err := t.client.Stream(actx, t.addr)
+	if err != nil {
+		auxOpening.Store(false)
+		return "aux stream: " + err.Error()
+	}
+	what := ""
+	select {
+	case refused := <-auxEntered:
+		if !refused {
+			what = "handler Send of an unencodable payload returned nil"
+		}
+	case <-actx.Done():
+		what = "aux handler did not start"
+	}
+	auxOpening.Store(false)
+	if e := cs.Send(Req{ID: -1, Message: "unencodable", Labels: map[string]int{"x": 1}, Extra: make(chan int)}); e == nil {
+		what = "client Send of an unencodable payload returned nil"
+	}
+	_ = cs.CloseSend()
+	func() {
+		defer func() { _ = recover() }()
+		for k := 0; k < 1000; k++ {
+			if _, e := cs.Receive(); e != nil {
+				return
+			}
+		}
+	}()
+	var wg sync.WaitGroup
+	for g := 0; g < 2*runtime.NumCPU(); g++ {
+		wg.Add(1)
+		go func() {
+			defer wg.Done()
+			for k := 0; k < 3; k++ {
+				_ = codec.EncodeStream(ctx, io.Discard, fhttp.WSMessage[Req]{
+					Type:    fhttp.WSMessageTypeData,
+					Payload: Req{ID: -3, Message: "unencodable", Labels: map[string]int{"y": 2}, Extra: make(chan int)},
+				})
+			}
+		}()
+	}
+	wg.Wait()
+	return what
+}
 
 func errObs(r *run, err error) obs {
 	o := obs{K: "err", Cls: classify(err), Msg: err.Error()}
@@ -447,6 +525,17 @@ func (r *run) recover(where string) {
 
 // the handler bound to every transport
 func handler(ctx context.Context, s freighter.ServerStream[Req, Res]) (err error) {
+	if auxOpening.Load() {
+		// an auxiliary stream opened by a "poison" op: try to send an unencodable response,
+		// then consume whatever the client sends
+		e := s.Send(Res{ID: -2, Message: "unencodable", Labels: map[string]int{"x": 1}, Extra: make(chan int)})
+		auxEntered <- (e != nil)
+		for {
+			if _, e := s.Receive(); e != nil {
+				return nil
+			}
+		}
+	}
 	curMu.Lock()
 	r := cur
 	curMu.Unlock()
@@ -718,6 +807,12 @@ func runCase(tc tcase) (res result) {
 	}
 	clientDone := make(chan struct{})
 	go func() { defer close(clientDone); clientSide(r, cs) }()
+	// the handler of THIS stream must have been entered before any op is issued (a poison op
+	// flags the next handler entry as auxiliary)
+	select {
+	case <-r.hStart:
+	case <-time.After(opTimeout):
+	}
 
 	deadline := time.After(opTimeout)
 	pending := map[int]bool{}
@@ -736,6 +831,15 @@ func runCase(tc tcase) (res result) {
 	issuedC, issuedH := 0, 0 // ops handed to each side (handler: without its ret)
 issue:
 	for i, o := range tc.Ops {
+		if o.S == "x" {
+			// harness-level op, not part of either side's script
+			if o.A == "poison" {
+				if w := poison(ctx, tc.T); w != "" {
+					res.Poison = append(res.Poison, w)
+				}
+			}
+			continue
+		}
 		pending[i] = true
 		if o.S == "h" {
 			r.goH <- i
